@@ -16,8 +16,8 @@ impl Case {
     fn line(&self) -> String { let h = |b: &[u8]| if b.is_empty() { "-".to_string() } else { kspec::hex(b) }; format!("{} {} {} {} {} {}\n", h(&self.pw()), h(&self.salt()), self.n(), self.r, self.p, self.dk_len) }
 }
 pub fn strat(max_mem: u64) -> impl Strategy<Value = Case> {
-    (any::<u64>(), prop_oneof![3 => 0usize..40, 2 => 60usize..70, 1 => 0usize..200], prop_oneof![3 => 0usize..40, 1 => 0usize..200], prop_oneof![5 => 1u32..6, 2 => 1u32..11, 1 => 1u32..16], prop_oneof![3 => 1u32..4, 2 => 1u32..17], prop_oneof![3 => 1u32..4, 1 => 1u32..9], prop_oneof![8 => prop_oneof![Just(1usize), Just(31), Just(32), Just(33), Just(63), Just(64), Just(65)], 8 => 1usize..201, 1 => prop_oneof![Just(8160usize), Just(8161), Just(8192), 8000usize..20000]])
-        .prop_map(move |(seed, pw_len, salt_len, log_n, r, p, dk_len)| { let mut log_n = log_n; while 128u64 * (1u64 << log_n) * r as u64 > max_mem && log_n > 1 { log_n -= 1; } Case { seed, pw_len, salt_len, log_n, r, p, dk_len } })
+    (any::<u64>(), prop_oneof![3 => 0usize..40, 2 => 60usize..70, 1 => 0usize..200], prop_oneof![3 => 0usize..40, 1 => 0usize..200], prop_oneof![5 => 1u32..6, 2 => 1u32..11, 1 => 1u32..16], prop_oneof![12 => 1u32..4, 8 => 1u32..17, 1 => 17u32..140, 1 => 120u32..300, 1 => prop_oneof![Just(127u32), Just(128), Just(129), Just(255), Just(256), Just(257)]], prop_oneof![12 => 1u32..4, 4 => 1u32..9, 1 => 9u32..70], prop_oneof![8 => prop_oneof![Just(1usize), Just(31), Just(32), Just(33), Just(63), Just(64), Just(65)], 8 => 1usize..201, 1 => prop_oneof![Just(8160usize), Just(8161), Just(8192), 8000usize..20000]])
+        .prop_map(move |(seed, pw_len, salt_len, log_n, r, p, dk_len)| { let mut log_n = log_n; while (128u64 * (1u64 << log_n) * r as u64 > max_mem || (1u64 << log_n) * r as u64 * p as u64 > (1 << 17)) && log_n > 1 { log_n -= 1; } Case { seed, pw_len, salt_len, log_n, r, p, dk_len } })
 }
 
 pub fn check(c: &Case) -> CheckResult {
@@ -88,12 +88,12 @@ pub fn check_batch(b: &Batch) -> CheckResult {
 }
 
 pub fn run(ctx: &Ctx) {
-    set_rule("C18", "(password 0..200 B, salt 0..200 B, N = 2^(1..15), r 1..16, p 1..8, dkLen 1..200, 128*N*r within the memory bound) biased to small N, r != p, dkLen in {1,31,32,33,63,64,65} and password lengths around 64: kestrel_crypto::scrypt == independent RFC 7914 implementation; the same case through the exported extern \"C\" function into a buffer framed by 64 guard bytes on each side; the library and the exported function again while the counting allocator hands out every alignment-1 block at an odd address and the output pointer is odd; a batch through OpenSSL's scrypt (hashlib) and through a C program that includes kestrel-crypto.h and links the static library built from the working tree (ASan, exact-size heap buffers). Non-trivial = r > 1 or p > 1 or dkLen not in {32, 64}; distinct by hash of the case");
+    set_rule("C18", "(password 0..200 B, salt 0..200 B, N = 2^(1..15), r 1..16 and rarely to 300 (fixed: 129, 1024), p 1..8 and rarely to 70 (fixed: 300), dkLen 1..200, 128*N*r within the memory bound, N*r*p bounded for time) biased to small N, r != p, dkLen in {1,31,32,33,63,64,65} and password lengths around 64: kestrel_crypto::scrypt == independent RFC 7914 implementation; the same case through the exported extern \"C\" function into a buffer framed by 64 guard bytes on each side; the library and the exported function again while the counting allocator hands out every alignment-1 block at an odd address and the output pointer is odd; a batch through OpenSSL's scrypt (hashlib) and through a C program that includes kestrel-crypto.h and links the static library built from the working tree (ASan, exact-size heap buffers). Non-trivial = r > 1 or p > 1 or dkLen not in {32, 64}; distinct by hash of the case");
     ctx.assume("caller preconditions of the C function are respected (valid pointers, correct lengths, N a power of two > 1)");
     let mem = if ctx.quick() { 8u64 << 20 } else { 64 << 20 };
     ctx.pbt("lib_and_ffi_vs_rfc7914", ctx.n(6_000, 150_000), || strat(mem), check);
     // RFC 7914 / production parameter sets, deterministically
-    let fixed: Vec<Case> = vec![Case { seed: 1, pw_len: 0, salt_len: 0, log_n: 4, r: 1, p: 1, dk_len: 64 }, Case { seed: 2, pw_len: 8, salt_len: 4, log_n: 10, r: 8, p: 16, dk_len: 64 }, Case { seed: 3, pw_len: 13, salt_len: 14, log_n: 14, r: 8, p: 1, dk_len: 64 }, Case { seed: 4, pw_len: 7, salt_len: 32, log_n: 15, r: 8, p: 1, dk_len: 32 }, Case { seed: 5, pw_len: 100, salt_len: 32, log_n: 15, r: 8, p: 1, dk_len: 32 }, Case { seed: 6, pw_len: 5, salt_len: 5, log_n: 15, r: 16, p: 2, dk_len: 200 }, Case { seed: 7, pw_len: 9, salt_len: 9, log_n: 2, r: 1, p: 1, dk_len: 8161 }, Case { seed: 8, pw_len: 64, salt_len: 9, log_n: 3, r: 2, p: 1, dk_len: 16400 }];
+    let fixed: Vec<Case> = vec![Case { seed: 1, pw_len: 0, salt_len: 0, log_n: 4, r: 1, p: 1, dk_len: 64 }, Case { seed: 2, pw_len: 8, salt_len: 4, log_n: 10, r: 8, p: 16, dk_len: 64 }, Case { seed: 3, pw_len: 13, salt_len: 14, log_n: 14, r: 8, p: 1, dk_len: 64 }, Case { seed: 4, pw_len: 7, salt_len: 32, log_n: 15, r: 8, p: 1, dk_len: 32 }, Case { seed: 5, pw_len: 100, salt_len: 32, log_n: 15, r: 8, p: 1, dk_len: 32 }, Case { seed: 6, pw_len: 5, salt_len: 5, log_n: 15, r: 16, p: 2, dk_len: 200 }, Case { seed: 7, pw_len: 9, salt_len: 9, log_n: 2, r: 1, p: 1, dk_len: 8161 }, Case { seed: 8, pw_len: 64, salt_len: 9, log_n: 3, r: 2, p: 1, dk_len: 16400 }, Case { seed: 9, pw_len: 6, salt_len: 6, log_n: 2, r: 129, p: 1, dk_len: 40 }, Case { seed: 10, pw_len: 6, salt_len: 6, log_n: 1, r: 1024, p: 2, dk_len: 33 }, Case { seed: 11, pw_len: 3, salt_len: 3, log_n: 2, r: 1, p: 300, dk_len: 20 }];
     ctx.sse_vec("fixed_parameter_sets", "RFC 7914 parameter sets and kestrel's production parameters (32768, 8, 1)", fixed.clone(), check);
     ctx.sse_vec("fixed_parameter_sets_odd_addresses", "the same parameter sets while the allocator places byte buffers at odd addresses", fixed.clone(), check_misaligned);
     ctx.pbt("odd_address_byte_buffers", ctx.n(1_500, 40_000), || strat(mem), check_misaligned);
